@@ -9,7 +9,8 @@ import (
 
 func init() {
 	register("C02", &propSpec{
-		run: runC02,
+		technique: "static analysis: module call-graph who-may-open check, SSA typestate (open → IsHidden-false edge → sink), guard-edge dominance for redirects",
+		run:       runC02,
 		decided: "R1 the file-serving handlers reach the disk only through the jailed http.FileSystem (no os/ioutil/filepath file access reachable from their ServeHTTP without going through Next), and every FileServer is rooted at http.Dir; " +
 			"R2 every file that can reach a content sink (ServeContent or any other call given the opened file, a listing entry, an archive member) is tested with IsHidden on its own FileInfo and the sink lies on the not-hidden edge; " +
 			"R3 every redirect issued by these handlers targets a copy of the request URL whose path had leading '//' stripped; " +
